@@ -44,6 +44,7 @@ def make_program(prop: str, seed: int, stream: int, scratch: str,
                                                 mc_enum_family=mc_enum_family, mc_no_outs=mc_no_outs)
     work = os.path.join(scratch, f'{prop.lower()}_{stream}')
     prog = cxxlab.ShellProgram(gen, ent, enc, info, work)
+    prog.release = (stream // 2) % 2 == 1
     case = {'seed': seed, 'stream': stream, 'cfg': enc, 'component': info['fqn'],
             'ports': info['ports'], 'doc': M.to_json(gen.model)}
     return prog, case, rng
@@ -55,6 +56,8 @@ def build_or_report(prog, case, out, flavors) -> bool:
         out['violations'].append({'mechanism': f'valid-build-failed:{prog.build_exc["type"]}',
                                   'detail': prog.build_exc, 'case': case})
         return False
+    key = 'programs_built_as_release' if prog.release else 'programs_built_as_development'
+    out['counts'][key] = out['counts'].get(key, 0) + 1
     for flavor in flavors:
         if not prog.compile(flavor):
             if 'watchdog' in prog.compile_err:
